@@ -291,7 +291,7 @@ func (s *InMemoryStore) CreateTopic(ctx context.Context, spec TopicSpec) (*proto
 		return nil, ctx.Err()
 	default:
 	}
-	if spec.Name == "" || spec.NumPartitions <= 0 {
+	if !ValidTopicName(spec.Name) || spec.NumPartitions <= 0 {
 		return nil, ErrInvalidTopic
 	}
 	if spec.ReplicationFactor <= 0 {
@@ -326,6 +326,29 @@ func (s *InMemoryStore) CreateTopic(ctx context.Context, spec TopicSpec) (*proto
 	s.state.Topics = append(s.state.Topics, newTopic)
 	s.topicConfigs[spec.Name] = defaultTopicConfigFromTopic(&newTopic, spec.ReplicationFactor)
 	return &newTopic, nil
+}
+
+// maxTopicNameLength is Kafka's limit on topic name length.
+const maxTopicNameLength = 249
+
+// ValidTopicName reports whether name is a legal Kafka topic name: 1 to 249
+// characters from [a-zA-Z0-9._-], and not "." or "..". Topic names are embedded
+// in S3 object keys (cleaned by path.Join) and in '/'- and ':'-separated
+// metadata keys, so any other name could alias another topic's storage.
+func ValidTopicName(name string) bool {
+	if name == "" || name == "." || name == ".." || len(name) > maxTopicNameLength {
+		return false
+	}
+	for i := 0; i < len(name); i++ {
+		c := name[i]
+		switch {
+		case c >= 'a' && c <= 'z', c >= 'A' && c <= 'Z', c >= '0' && c <= '9':
+		case c == '.', c == '_', c == '-':
+		default:
+			return false
+		}
+	}
+	return true
 }
 
 func topicHasPartition(topics []protocol.MetadataTopic, name string, partition int32) bool {
